@@ -12,6 +12,7 @@ def run(ctx):
     P.C09_comment_fields(ctx, "C09.R1", core)
     P.C09_single_members(ctx, "C09.R1", core)
     P.C09_fallbacks(ctx, "C09.R1b", core)
+    P.single_line_probe(ctx, "C09.R11", core)
     P.C09_drivers(ctx, "C09.R2", core, cli, wasm, G)
     P.C09_builder_slots(ctx, "C09.R3", core, G)
     P.C09_grammar_gaps(ctx, "C09.R5", G)
